@@ -215,7 +215,64 @@ def case_fn(case):
     return r
 
 
+def single_node_fn(case):
+    """Tables with a single temperature and / or pressure node: along such an axis every query is bracketed by that one
+    node, so the answer is the interpolation along the other axis at that node (the edge value outside it)."""
+    r = core.R(case)
+    fx.reset_caches()
+    nP, nT = case['shape']
+    Tg = [900.0] if nT == 1 else fx.T_GRIDS[nT]
+    Pg = [3e1] if nP == 1 else fx.P_GRIDS[nP]
+    wn = fx.WN_GRIDS[4]
+    x = fx.table(nP, nT, 4, 1e-24, salt=('c04-single', nP, nT))
+    isk = case['layout'] != 'xsec'
+    if isk:
+        ng = int(case['layout'][1])
+        x = x[..., None] * np.array([1.0, 2.5, 0.3])[:ng][None, None, None, :]
+        w = np.array([0.2, 0.5, 0.3])[:ng]
+        op = fx.TinyK('H2O', wn, Tg, Pg, x, w / w.sum(), case['mode'])
+    else:
+        op = fx.TinyOp('H2O', wn, Tg, Pg, x, case['mode'])
+    # the equivalent two-node table: the single node repeated
+    x2, Tg2, Pg2 = x, list(Tg), list(Pg)
+    if nT == 1:
+        x2, Tg2 = np.concatenate([x2, x2], axis=1), [Tg[0], Tg[0] * 2.0]
+    if nP == 1:
+        x2, Pg2 = np.concatenate([x2, x2], axis=0), [Pg[0], Pg[0] * 100.0]
+    tpts = [('below', Tg[0] * 0.5), ('min', Tg[0]), ('above', Tg[0] * 1.7)] if nT == 1 else axis_points(Tg)
+    ppts = [('below', Pg[0] * 1e-2), ('min', Pg[0]), ('above', Pg[0] * 1e3)] if nP == 1 else axis_points(Pg, log=True)
+    tag = '%s/%s/nP=%s,nT=%s' % (case['mode'], 'ktable' if isk else 'xsec', '1' if nP == 1 else 'n', '1' if nT == 1 else 'n')
+    for (tn, T), (pn, P) in itertools.product(tpts, ppts):
+        where = 'T=%s,P=%s' % (tn, pn)
+        try:
+            got = np.asarray(op.opacity(T, P, None), dtype=float)
+        except Exception as e:
+            r.check(False, 'no-exception', 'single-node/exception/%s/%s/%s' % (type(e).__name__, where, tag), T=T, P=P,
+                    exc=repr(e))
+            continue
+        r.observe(got)
+        if tn == 'below' and pn == 'below':
+            r.check(bool(np.all(got == 0)), 'zero-corner', 'single-node/zero-corner/' + tag, got=got)
+            continue
+        Te = Tg[0] if nT == 1 else T
+        Pe = Pg[0] if nP == 1 else P
+        lo, hi = opac.bracket_nodes(x2, Tg2, Pg2, Te, Pe)
+        slack = 4 * np.finfo(float).eps * hi
+        r.check(bool(np.all(np.isfinite(got)) and np.all(got >= lo - slack) and np.all(got <= hi + slack)), 'bracket',
+                'single-node/bracket/%s/%s' % (where, tag), T=T, P=P, got=got, lo=lo, hi=hi)
+        tin = nT == 1 or tn not in ('below', 'above')
+        pin = nP == 1 or pn not in ('below', 'above')
+        if tin and pin:
+            r.eq(got, opac.interp_opacity(x2, Tg2, Pg2, Te, Pe, case['mode'], zero_corner=False), 'cell-value',
+                 'single-node/value/%s/%s' % (where, tag), T=T, P=P)
+    r.nontrivial = True
+    return r
+
+
 def explore(ctx):
+    sn = [{'shape': list(sh), 'mode': mode, 'layout': lay} for sh in ((1, 3), (3, 1), (1, 2), (2, 1), (1, 1))
+          for mode in ('linear', 'exp') for lay in LAYOUTS]
+    ctx.run_cases('single_node_fn', sn, phase='single-node')
     shapes = [(2, 2), (2, 3), (3, 2), (3, 3)]
     if ctx.tier == 'thorough':
         shapes += [(4, 4), (2, 4), (4, 3), (4, 2), (3, 4)]
